@@ -320,31 +320,34 @@ theorem flexValidate_noFault (d : Dict) (hd : Law d) (l : LenTy) (hl : l.Law) (o
       · simp
       · split
         · simp
-        · rename_i hnz hcond
-          simp only [Bool.or_eq_true, decide_eq_true_eq, Bool.and_eq_true, Bool.not_eq_true', decide_eq_false_iff_not, not_or, not_and, Nat.not_lt] at hcond
-          split
-          · -- last item
-            have h1 : os ≤ data.len := by omega
-            simp only [Slice.splitAt, h1, if_true, Res.offset_noFault]
-            exact hd.validate_noFault _
-          · rename_i hlast
-            have hnd : next ≤ data.len := by
-              have := hcond.2
-              by_cases hq : next = l.max
-              · exact absurd hq hlast
-              · have := this (by simpa using hq); omega
-            simp only [Slice.splitAt, hnd, if_true]
-            have h2 : os ≤ (data.take next).len := by simp only [Slice.len_take]; omega
-            simp only [h2, if_true]
-            have hv := hd.validate_noFault ((data.take next).drop os)
-            cases hvv : (d.validate ((data.take next).drop os)) with
-            | fault w => rw [hvv] at hv; exact absurd hv (by simp)
-            | err e => simp
-            | ok u =>
-              simp only [Res.offset_ok]
-              apply ih
-              have : 0 < l.size := hl.size_pow2.pos
-              simp only [Slice.len_drop]; omega
+        · split
+          · simp
+          · rename_i hnz hgt hcond
+            simp only [Bool.or_eq_true, decide_eq_true_eq, Bool.and_eq_true, Bool.not_eq_true', decide_eq_false_iff_not, not_or, not_and, Nat.not_lt] at hcond
+            have hge : os ≤ next := by omega
+            split
+            · -- last item
+              have h1 : os ≤ data.len := by omega
+              simp only [Slice.splitAt, h1, if_true, Res.offset_noFault]
+              exact hd.validate_noFault _
+            · rename_i hlast
+              have hnd : next ≤ data.len := by
+                have := hcond.2
+                by_cases hq : next = l.max
+                · exact absurd hq hlast
+                · have := this (by simpa using hq); omega
+              simp only [Slice.splitAt, hnd, if_true]
+              have h2 : os ≤ (data.take next).len := by simp only [Slice.len_take]; omega
+              simp only [h2, if_true]
+              have hv := hd.validate_noFault ((data.take next).drop os)
+              cases hvv : (d.validate ((data.take next).drop os)) with
+              | fault w => rw [hvv] at hv; exact absurd hv (by simp)
+              | err e => simp
+              | ok u =>
+                simp only [Res.offset_ok]
+                apply ih
+                have : 0 < l.size := hl.size_pow2.pos
+                simp only [Slice.len_drop]; omega
 
 theorem flex_law (d : Dict) (hd : Law d) (l : LenTy) (hl : l.Law) : Law (flexD d l) :=
   { align_pow2 := Pow2.of_max hl.align_pow2 hd.align_pow2
